@@ -9,6 +9,7 @@ def unsafe_decode(string):
       "{} does not represent a valid integer".format(repr(string)))
 
 def decode(string):
+  validate_encoded(string)
   value = unsafe_decode(string)
   validate_decoded(value)
   return value
